@@ -1,4 +1,8 @@
 import CCVerif.Model.Translation
+import CCVerif.Model.Dedup
+import CCVerif.Model.Merge
+import CCVerif.Model.Equate
+import CCVerif.Model.Synth
 import Driver.Util
 /-! Driver ops for C12: the translation algebra (model = transcription on association lists in
 the iteration order the implementation used; spec = per-key characterisation on finite maps). -/
@@ -18,6 +22,107 @@ def specSubst (t s : Tr) : Tr := (keys t).filterMap fun k => (lookup t k).map fu
 def specSuperpose (t s : Tr) : Tr :=
   specSubst t s ++ ((keys s).filter (fun k => !(keys t).contains k)).filterMap fun k => (lookup s k).map (k, ·)
 
+/-! ### `c12 dups <dump>`: `RSForm::DeleteDuplicatesInternal` (model `CCVerif.Dedup.dedup`)
+
+The dump is `uid;alias;kind;definition;convention;term;textdef#…` in `List()` order, blanks
+replaced by `_`; the observed value is the returned translation followed by the same dump of the
+schema afterwards (both compared with the model). Tokenisation (the part of `TranslateAll` that is C08/C17's subject and an input of
+the C12 model): in the definition and the convention every maximal `[XCSADFTP][0-9]+` is a mention
+(what `TranslateRS` with `FilterGlobals` re-spells on the generated definitions); in the two texts
+only the entity name right after `@{` is one (`ManagedText::TranslateRaw`). -/
+
+def isGlobalLetter (c : Char) : Bool := "XCSADFTP".toList.contains c
+
+structure TokSt where
+  out : List CCVerif.Dedup.Tok := []     -- reversed
+  sym : List Char := []                  -- reversed run of opaque characters
+  cur : List Char := []                  -- reversed candidate: a global letter and the digits after it
+  p1 : Char := ' '                       -- the two characters before the current one
+  p2 : Char := ' '
+
+def TokSt.closeCur (st : TokSt) : TokSt :=
+  if st.cur.length ≥ 2 then
+    let out := if st.sym.isEmpty then st.out else .sym (String.ofList st.sym.reverse) :: st.out
+    { st with out := .mention (String.ofList st.cur.reverse) :: out, sym := [], cur := [] }
+  else { st with sym := st.cur ++ st.sym, cur := [] }
+
+/-- `refsOnly`: a mention must follow `@{` -/
+def TokSt.step (refsOnly : Bool) (st : TokSt) (c : Char) : TokSt :=
+  let st := if !st.cur.isEmpty && c.isDigit then { st with cur := c :: st.cur }
+    else
+      let st := st.closeCur
+      if isGlobalLetter c && (!refsOnly || (st.p1 == '@' && st.p2 == '{')) then { st with cur := [c] }
+      else { st with sym := c :: st.sym }
+  { st with p1 := st.p2, p2 := c }
+
+def tokenize (refsOnly : Bool) (cs : List Char) : List CCVerif.Dedup.Tok :=
+  let st := (cs.foldl (TokSt.step refsOnly) {}).closeCur
+  (if st.sym.isEmpty then st.out else .sym (String.ofList st.sym.reverse) :: st.out).reverse
+
+def parseCst (s : String) : Option CCVerif.Dedup.Cst :=
+  match s.splitOn ";" with
+  | [uid, alias, kind, d, conv, term, tdef] =>
+    some { uid := parseNat uid, alias := alias, kind := parseNat kind,
+           definition := tokenize false d.toList,
+           rest := [tokenize false conv.toList, tokenize true term.toList, tokenize true tdef.toList] }
+  | _ => none
+
+def parseDump (s : String) : Option CCVerif.Dedup.Schema :=
+  ((s.splitOn "#").filter (· != "")).mapM parseCst
+
+def showToks (ts : List CCVerif.Dedup.Tok) : String :=
+  String.join (ts.map fun | .mention a => a | .sym t => t)
+
+def showSchema (l : CCVerif.Dedup.Schema) : String :=
+  String.join (l.map fun c =>
+    s!"{c.uid};{c.alias};{c.kind};{showToks c.definition};" ++ joinWith ";" (c.rest.map showToks) ++ "#")
+
+/-! ### `c12 mergeM <dump of the schema> <dump of the operand> <fresh uids>`: `MergeWith`
+(model `CCVerif.Merge.mergeWith` with the real name rule). Observed: the returned translation and
+the dump of the schema afterwards. The specification column keeps the identities the model gives
+(uid, alias, position) and states the content: a constituent of the schema is untouched; the copy
+of an operand constituent carries the operand's content with every mention of an operand alias
+renamed ONCE to the alias of its image. -/
+
+def parseNats (s : String) : List Nat := if s == "-" then [] else (s.splitOn ",").map parseNat
+
+def specMerge (a b : CCVerif.Dedup.Schema) (r : CCVerif.Dedup.Schema) (tr : Tr) : CCVerif.Dedup.Schema :=
+  let aliasIn (u : Nat) : Option String := (r.find? (·.uid == u)).map (·.alias)
+  let m (x : String) : String :=
+    match b.find? (·.alias == x) with
+    | some c2 => ((lookup tr c2.uid).bind aliasIn).getD x
+    | none => x
+  r.map fun s =>
+    match b.find? (fun c2 => lookup tr c2.uid == some s.uid) with
+    | some c2 => if a.any (·.uid == s.uid) then s else { s with definition := c2.definition.map (CCVerif.Dedup.renTok m), rest := c2.rest.map (·.map (CCVerif.Dedup.renTok m)) }
+    | none => s
+
+/-! ### `c12 equateM <dump> <table> <verdict>`: `rsOperationFacet::Equate` (model
+`CCVerif.Equate.equate`). The table is `key>value/mode/arg;…` in the iteration order of the
+implementation's map; `verdict` (`acc` / `ref`) is the implementation's answer, used ONLY as the
+semantic part of the admissibility check (reachability, typedness, equal typification — `semOk`);
+the structural part is the model's own. Observed: `refused <dump>` or `<translation> <dump>`. -/
+
+def parseTable (s : String) : List CCVerif.Equate.Entry :=
+  if s == "-" then [] else
+  (s.splitOn ";").filterMap fun e =>
+    match e.splitOn "/" with
+    | [kv, m, arg] =>
+      match kv.splitOn ">" with
+      | [k, v] => some { key := parseNat k, value := parseNat v, mode := parseNat m, arg := tokenize true arg.toList }
+      | _ => none
+    | _ => none
+
+/-! ### `c12 synthM <dump of operand 1> <dump of operand 2> <table> <fresh uids> <verdict>`:
+`BinarySynthes` (model `CCVerif.Synth.synth` with the real name rule). `verdict` is
+`IsCorrectlyDefined()`, used only as the semantic part of the admissibility check. Observed:
+`refused` or `<translation 1> <translation 2> <dump of the result>`. When two equations share
+their value and one of them moves texts, the texts depend on the iteration order of a hash map
+inside `BinarySynthes` that cannot be observed: `skip`. -/
+
+def orderDependent (eqs : List CCVerif.Equate.Entry) : Bool :=
+  eqs.any fun e => e.mode != 1 && eqs.any fun e' => e'.key != e.key && e'.value == e.value
+
 def handle (args : List String) : String :=
   match args with
   | ["subst", a, b] =>
@@ -34,7 +139,38 @@ def handle (args : List String) : String :=
   | "synth" :: _ => "skip\tx"
   | "equate" :: _ => "skip\tx"
   | "merge" :: _ => "skip\tx"
-  | "dups" :: _ => "skip\tx"
+  | ["synthM", da, db, table, fr, verdict] =>
+    match parseDump da, parseDump db with
+    | some a, some b =>
+      let eqs := parseTable table
+      if orderDependent eqs then "skip\tx" else
+      match CCVerif.Synth.synth CCVerif.Merge.realNames (parseNats fr) (verdict == "acc") a b eqs with
+      | .stuck => "stuck\tx"
+      | .refused => "refused\tx"
+      | .ok r t1 t2 => s!"{showTr t1} {showTr t2} {showSchema r}\tx"
+    | _, _ => "bad-dump\tn/a"
+  | ["equateM", dump, table, verdict] =>
+    match parseDump dump with
+    | none => "bad-dump\tn/a"
+    | some l =>
+      match CCVerif.Equate.equate (verdict == "acc") l (parseTable table) with
+      | none => s!"refused {showSchema l}\tx"
+      | some (r, tr) => s!"{showTr tr} {showSchema r}\tx"
+  | [op, da, db, fr] =>
+    if op != "mergeM" && op != "mergeM-selfcollide" then "bad-op\tn/a" else
+    match parseDump da, parseDump db with
+    | some a, some b =>
+      match CCVerif.Merge.mergeWith CCVerif.Merge.realNames (parseNats fr) a b with
+      | none => "stuck\tx"
+      | some (r, tr) => s!"{showTr tr} {showSchema r}\t{showTr tr} {showSchema (specMerge a b r tr)}"
+    | _, _ => "bad-dump\tn/a"
+  | ["dups", dump] =>
+    match parseDump dump with
+    | none => "bad-dump\tn/a"
+    | some l =>
+      match CCVerif.Dedup.dedup l with
+      | none => "out-of-fuel\tx"
+      | some (r, tr) => s!"{showTr tr} {showSchema r}\tx"
   | _ => "bad-op\tn/a"
 
 end Driver.C12
